@@ -23,13 +23,14 @@ CONSTANTS Txns,       \* transaction names
           MaxIvl,     \* cap of the interval: 1600 ms
           MaxSend,    \* 7 transmissions in total
           FineTime,   \* TRUE: time also advances by 1 ms and to 1 ms before a timer; FALSE: timer to timer
+          SlowWrites, \* BOOLEAN: also explore a first socket write that takes time
           FailAts,    \* which transmission's write may fail: subset of 0..MaxSend (0 = never)
           MaxDepth
 
 VARIABLES txn, closed, out, last
 vars == <<txn, closed, out, last>>
 
-Idle == [phase |-> "idle", nsent |-> 0, ivl |-> 0, left |-> 0, failAt |-> 0, res |-> "none"]
+Idle == [phase |-> "idle", nsent |-> 0, ivl |-> 0, left |-> 0, failAt |-> 0, res |-> "none", got |-> "none"]
 Init == txn = [t \in Txns |-> Idle] /\ closed = FALSE /\ out = {} /\ last = [a |-> "Init"]
 
 Pending(t) == txn[t].phase = "pending"
@@ -51,16 +52,43 @@ Start(t, fa) ==
             /\ out' = {Sent(t, 1)}
   /\ UNCHANGED closed
 
+(* PerformTransaction whose first socket write is slow: the transaction is already in the table  *)
+(* (and can be answered or closed) while the caller is still inside conn.WriteTo                 *)
+StartSlow(t) ==
+  /\ txn[t].phase = "idle" /\ ~closed
+  /\ last' = [a |-> "StartSlow", t |-> t]
+  /\ txn' = [txn EXCEPT ![t] = [Idle EXCEPT !.phase = "writing"]]
+  /\ out' = {} /\ UNCHANGED closed
+\* the write completes: the datagram goes out; the caller arms the timer and waits -- or finds that
+\* the response has already arrived / the client has been closed
+WriteDone(t) ==
+  /\ txn[t].phase = "writing"
+  /\ last' = [a |-> "WriteDone", t |-> t]
+  /\ IF txn[t].got = "none"
+       THEN /\ txn' = [txn EXCEPT ![t] = [phase |-> "pending", nsent |-> 1, ivl |-> RTO, left |-> RTO,
+                                          failAt |-> 0, res |-> "none", got |-> "none"]]
+            /\ out' = {Sent(t, 1)}
+       ELSE /\ txn' = [txn EXCEPT ![t] = [Done(t, txn[t].got) EXCEPT !.nsent = 1]]
+            /\ out' = {Sent(t, 1), Ret(t, txn[t].got)}
+  /\ UNCHANGED closed
+
 (* handleSTUNMessage: the first response with the matching id completes the transaction *)
+\* the client has ONE inbound goroutine; while it is handing a response to a caller that is still
+\* inside its socket write it processes nothing else (what arrives meanwhile waits in the socket)
+InboundBusy == \E x \in Txns : txn[x].phase = "writing" /\ txn[x].got = "resp"
 Response(t) ==
+  /\ ~InboundBusy
   /\ txn[t].phase # "idle"
   /\ last' = [a |-> "Response", t |-> t]
   /\ IF Pending(t)
        THEN txn' = [txn EXCEPT ![t] = Done(t, "resp")] /\ out' = {Ret(t, "resp")}
-       ELSE UNCHANGED txn /\ out' = {}             \* duplicate / late: ignored
+       ELSE IF txn[t].phase = "writing" /\ txn[t].got = "none"
+         THEN txn' = [txn EXCEPT ![t].got = "resp"] /\ out' = {}      \* delivered when the caller starts to wait
+         ELSE UNCHANGED txn /\ out' = {}             \* duplicate / late: ignored
   /\ UNCHANGED closed
 
 Foreign ==
+  /\ ~InboundBusy
   /\ last' = [a |-> "Foreign"] /\ UNCHANGED <<txn, closed>> /\ out' = {}
 
 (* Client.Close: every waiting caller gets an error *)
@@ -68,7 +96,9 @@ Close ==
   /\ ~closed
   /\ last' = [a |-> "Close"]
   /\ closed' = TRUE
-  /\ txn' = [t \in Txns |-> IF Pending(t) THEN Done(t, "closed") ELSE txn[t]]
+  /\ txn' = [t \in Txns |-> IF Pending(t) THEN Done(t, "closed")
+                            ELSE IF txn[t].phase = "writing" /\ txn[t].got = "none" THEN [txn[t] EXCEPT !.got = "closed"]
+                            ELSE txn[t]]
   /\ out' = {Ret(t, "closed") : t \in {x \in Txns : Pending(x)}}
 
 (* time: onRtxTimeout for every timer that is due *)
@@ -92,11 +122,12 @@ Advance(d) ==
 Next ==
   \/ \E t \in Txns, fa \in FailAts : Start(t, fa)
   \/ \E t \in Txns : Response(t)
+  \/ (SlowWrites /\ \E t \in Txns : StartSlow(t) \/ WriteDone(t))
   \/ Foreign \/ Close
   \/ \E d \in Jumps : Advance(d)
 Spec == Init /\ [][Next]_vars
 \* liveness is checked under fairness of time (and nothing else): a pending transaction ends
-FairSpec == Spec /\ WF_vars(\E d \in Jumps : Advance(d))
+FairSpec == Spec /\ WF_vars(\E d \in Jumps : Advance(d)) /\ WF_vars(\E t \in Txns : WriteDone(t))
 View == <<txn, closed>>
 DepthBound == TLCGet("level") <= MaxDepth
 
@@ -108,15 +139,19 @@ C12_ExactlyOnce ==
                      /\ ((txn[t].res = "none" /\ txn'[t].res # "none") <=> \E o \in out' : o.k = "ret" /\ o.t = t)]_vars
 \* only its own response completes a transaction with success
 C12_OwnResponse ==
-  [][\A o \in out' : (o.k = "ret" /\ o.res = "resp") => (last'.a = "Response" /\ last'.t = o.t)]_vars
+  [][\A o \in out' : (o.k = "ret" /\ o.res = "resp") =>
+        \/ (last'.a = "Response" /\ last'.t = o.t)
+        \/ (last'.a = "WriteDone" /\ last'.t = o.t /\ txn[o.t].got = "resp")]_vars   \* it arrived during the write
 \* the schedule: at most MaxSend transmissions, interval doubles and is capped
 C12_Schedule ==
   \A t \in Txns : Pending(t) => /\ txn[t].nsent \in 1..MaxSend
                                 /\ txn[t].ivl <= MaxIvl /\ txn[t].left \in 1..txn[t].ivl
 \* nothing is left behind: a finished transaction has no timer
 C12_NothingLeft == \A t \in Txns : txn[t].phase = "done" => txn[t].left = 0
+\* entries of the transaction table
+InTable(t) == Pending(t) \/ (txn[t].phase = "writing" /\ txn[t].got = "none")
 \* termination (FairSpec): every pending transaction finishes
-C12_Terminates == \A t \in Txns : (txn[t].phase = "pending") ~> (txn[t].phase = "done")
+C12_Terminates == \A t \in Txns : (txn[t].phase \in {"pending", "writing"}) ~> (txn[t].phase = "done")
 
 ASSUME PrintT("META " \o ToJson([Sys |-> "clienttxn", Extra |-> [RTO |-> ToString(RTO)]]))
 EmitEdge ==
